@@ -519,6 +519,10 @@ def assemble(unit_path, repo, twin=False, root=None, snapshots=None):
             if twin and not meta.get('_guard') and re.match(r'^verus!\s*\{', s):
                 emit('pub uninterp spec fn vacuity_probe_guard(k: int) -> bool;', {'kind': 'template', 'unit_line': i + 1, 'text': 'probe guard'})
                 meta['_guard'] = True
+            if not meta.get('_stdnum') and re.match(r'^verus!\s*\{', s):
+                # specifications of core integer helpers outside vstd, in every unit (see the file's header)
+                meta['_stdnum'] = True
+                do_include('shims/std_num.rs', i + 1)
             i += 1
             continue
         d = s[3:].strip()
